@@ -78,7 +78,19 @@ def register(R):
   # ---- the tee that lets assign / filter / sink see each input next to what was computed from it ------------------
   IU = 'ml_metrics/_src/utils/iter_utils.py'
   R.cls('_TeeIterator', dict(_iterator='iter[obj]', _buffer_size='nat', _buffer='deque[obj]', _exhausted='bool', _returned='obj?'))
-  TEE_INV = ['self._buffer_size == 0 or len(self._buffer) <= self._buffer_size']
+  @R.spec
+  def maxlen_of(it, a, k):        # capacity of a deque, -1 when it is unbounded (maxlen=None)
+    ml = getattr(a[0], 'maxlen', None)
+    return VInt(ml if ml is not None else z3.IntVal(-1))
+
+  # the recording buffer never discards on its own: it is unbounded, or bounded by exactly the size __next__ checks before appending
+  TEE_INV = ['self._buffer_size == 0 or len(self._buffer) <= self._buffer_size',
+             'maxlen_of(self._buffer) == (self._buffer_size if self._buffer_size != 0 else -1)']
+  R.add(Contract(
+      f'{IU}::_TeeIterator.__init__', P, types=dict(self='_TeeIterator', iterator='iter[obj]', buffer_size='nat'),
+      modifies=['self._iterator', 'self._buffer_size', 'self._buffer', 'self._exhausted', 'self._returned'],
+      ensures=TEE_INV + ['len(self._buffer) == 0', 'self._iterator is iterator', 'self._buffer_size == buffer_size', 'not self._exhausted'],
+      bounded='bounded_operator_chains', note='establishes the invariant __next__ and tee rely on'))
 
   def _tee_setup(it, env):
     src = env['self'].f['_iterator']
@@ -240,7 +252,7 @@ def register(R):
       note='two plain (non-dict) assign keys against a symbolic set of existing output keys'))
 
   R.bounded_checks[P] = [
-      ('bounded_operator_chains', 'all chains of <=3 operators from 11 (select/apply/assign/filter/sink; tuple, kwargs, nested-path, SKIP keys), fused and as named stages, vs a reference interpreter; input records untouched; sinks see every record once and are closed once'),
+      ('bounded_operator_chains', 'all chains of <=3 operators from 12 (select/apply/assign/filter/sink; tuple, kwargs, nested-path, SKIP keys), fused and as named stages, vs a reference interpreter; input records untouched; sinks see every record once and are closed once'),
       ('bounded_batch_operator', '.batch(k) alone, after select / renamed select / apply, and followed by apply: chunks of k in order, per output key, nothing lost'),
       ('bounded_chain_api', 'TreeTransform.chain: fused (same name) and chained (different names) pairs route like the operator sequence'),
       ('bounded_reserved_names', "columns literally named 'SELF' / 'SKIP' are ordinary columns for select/apply/assign/filter"),
